@@ -36,9 +36,9 @@ Step ==
             IF e.exc[1] # "streamclosed" THEN Fail("C10.unexpected_exception")
             ELSE IF ~closed[q] THEN Fail("C10.closed_semantics")           \* StreamClosed on an open queue
             ELSE IF Len(rcv[q]) # Len(acc[q]) THEN Fail("C10.closed_semantics")   \* buffered items not delivered first
-            ELSE wait' = [wait EXCEPT ![q] = RemoveFirst(@, a)] /\ UNCHANGED <<acc, rcv, closed, bad>>
+            ELSE wait' = [wait EXCEPT ![q] = DropFirst(@, a)] /\ UNCHANGED <<acc, rcv, closed, bad>>
        [] e.e = "u" /\ op = "get" ->
-            wait' = [wait EXCEPT ![e.q] = RemoveFirst(@, a)] /\ UNCHANGED <<acc, rcv, closed, bad>>
+            wait' = [wait EXCEPT ![e.q] = DropFirst(@, a)] /\ UNCHANGED <<acc, rcv, closed, bad>>
        [] e.e = "r" /\ op = "put" ->
             \* a put that the puppet issued on a closed queue (v = 0) must not succeed
             IF Traces[tid][l - 1].e = "b" /\ F(Traces[tid][l - 1], "op", "") = "put" /\ Traces[tid][l - 1].a = a
